@@ -16,9 +16,10 @@ Open Scope Z_scope.
    non-synchronising literals, arbitrary literal octets (CRLFs, command and announcement
    look-alikes), any digits for the counts, within the limits - is handed on as exactly the
    denoted commands, in order; the only octets written back are one continuation request per
-   synchronising literal; the loop then waits for more input.  No bound on counts or sizes. *)
+   synchronising literal; the loop then waits for more input.  No bound on counts or sizes.
+   (Holds with and without the patches: no refusal is involved.) *)
 Theorem C19_relay_exact : forall c,
-  fix_resync c = true -> 0 <= rlimit c -> forall cmds,
+  0 <= rlimit c -> forall cmds,
   Forall (wf_cmd (maxin c) (rlimit c) (maxdigits c)) cmds ->
   let o := frame_loop c (List.concat (map render cmds)) in
   msgs_of o = map denote cmds /\
